@@ -79,5 +79,17 @@ func (w *World) genesisApp() (res Result) {
 		detail += fmt.Sprintf("oracle export before: %s\nafter: %s\n", oj, oj2)
 	}
 	w2 := &World{A: b, Ctx: bctx, Height: w.Height, SK: b.SettlementKeeper, OK: *b.OracleKeeper, Vals: w.Vals, Keyed: w.Keyed, names: w.names, extraDenoms: map[string]bool{}, rcptSeen: map[string]bool{}}
-	return Result{Line: "ok " + same, Detail: detail, Dump: w2.dumpModules(bctx)}
+	dump := w2.dumpModules(bctx)
+	// the first block of the restarted chain has the height InitChain ran at. Admission there is admission as in any other block:
+	// a validator-creating message from an ordinary account, at the top level and inside an authz execution, is refused.
+	b.BeginBlock(abci.RequestBeginBlock{Header: header})
+	w2.Ctx = b.BaseApp.NewContext(false, header)
+	for _, probe := range []string{"createval(a1)", "exec(a1~[createval(a1)])"} {
+		r := w2.execTx([]string{"tx", "signers=auto", "payer=-", "fee=10000000000000000:asetl", "gas=500000", "msgs=" + probe})
+		if r.Line != "err" {
+			same = "restricted-message-admitted-after-restart"
+			detail += fmt.Sprintf("first block after the restart (height %d): %s -> %s %s\n", exp.Height, probe, r.Line, r.Detail)
+		}
+	}
+	return Result{Line: "ok " + same, Detail: detail, Dump: dump}
 }
